@@ -657,12 +657,15 @@ func runE2E(c e2eCase) (string, string) {
 	alert := "-"
 	if len(rcvEnd.Sent) > sentBefore {
 		snd.SetReadDeadline(time.Now().Add(2 * time.Second))
-		_, err := snd.Read(make([]byte, 16))
-		kind, code := tlcp.VerifErrKind(err)
-		if kind == "remote_alert" {
-			alert = strconv.Itoa(code)
-		} else {
+		typ, data, err := tlcp.VerifRxNextRecord(snd)
+		switch {
+		case err != nil:
+			kind, _ := tlcp.VerifErrKind(err)
 			alert = "?" + kind
+		case typ == 21 && len(data) == 2:
+			alert = fmt.Sprintf("%d.%d", data[0], data[1])
+		default:
+			alert = fmt.Sprintf("?type%d", typ)
 		}
 	}
 	obs := "reads=" + strings.Join(reads, ";") + " alert=" + alert
